@@ -198,6 +198,54 @@ Proof. unfold memf, name_of, getp. destruct (nth_error (st_parts s) p); reflexiv
 Lemma memf_pid s p : pm_pid (memf s p) = p.
 Proof. unfold memf. destruct (getp s p); reflexivity. Qed.
 
+(** the writer's content types item offers every part it was computed from exactly the
+    content type of that part (generic form of the C01 argument, exact-case Override lookup) *)
+Lemma cti_resolve {blob} (E : Opc.env blob) (L : list (Opc.part blob)) :
+  Opc.env_ok E -> NoDup (map Opc.p_name L) -> Opc_proofs.clashfree E L ->
+  NoDup (map fst (fst (Opc.content_types_item E L))) /\
+  NoDup (map fst (snd (Opc.content_types_item E L))) /\
+  forall pt, In pt L -> ct_resolve (Opc.content_types_item E L) (Opc.p_name pt) = Ok (Opc.p_ct pt).
+Proof.
+  intros [Hi1 Hi2] Hnd Hcf. unfold Opc.content_types_item, Opc.defaults_and_overrides.
+  destruct (fold_left (Opc.cti_step E) L (Opc.initdefs E, [])) as [D O] eqn:EDO.
+  assert (HO : O = map (fun pt => (Opc.p_name pt, Opc.p_ct pt)) (filter (fun pt => negb (Opc_proofs.intab E pt)) L)).
+  { change O with (snd (D, O)). rewrite <- EDO. rewrite Opc_proofs.cti_overrides; auto. }
+  assert (HD : D = fst (fold_left (Opc.cti_step E) L (Opc.initdefs E, []))) by (rewrite EDO; auto).
+  destruct (Opc_proofs.cti_defaults_keys E L (Opc.initdefs E) []) as [HDnd HDlow]; auto.
+  { intros k0 Hk. apply in_map_iff in Hk as (kv & <- & Hkv). auto. }
+  rewrite <- HD in HDnd, HDlow.
+  assert (HOnd : NoDup (map fst O)).
+  { rewrite HO, map_map. simpl. clear - Hnd. induction L as [|a l IH]; simpl; [constructor|].
+    simpl in Hnd. inversion Hnd; subst. destruct (negb (Opc_proofs.intab E a)); simpl; auto. constructor; auto.
+    intros Hin. apply H1. apply in_map_iff in Hin as (pt & He & Hpt). apply filter_In in Hpt as [Hpt _].
+    rewrite <- He. apply in_map; auto. }
+  cbn [fst snd]. split; [|split].
+  - eapply Permutation_NoDup; [apply Permutation_map, Permutation_sym, Opc_proofs.sort_by_perm|auto].
+  - eapply Permutation_NoDup; [apply Permutation_map, Permutation_sym, Opc_proofs.sort_by_perm|auto].
+  - intros pt Hpt. unfold ct_resolve. cbn [fst snd].
+    rewrite Opc_proofs.lookup_sort by auto.
+    destruct (Opc_proofs.intab E pt) eqn:Eq.
+    + assert (HnO : Opc.lookup (Opc.p_name pt) O = None).
+      { apply Opc_proofs.lookup_None. intros Hin. rewrite HO, map_map in Hin. simpl in Hin.
+        apply in_map_iff in Hin as (pt' & He & Hpt'). apply filter_In in Hpt' as [Hpt' Hni].
+        assert (pt' = pt).
+        { clear - Hnd Hpt Hpt' He. induction L as [|a l IH]; [destruct Hpt|]. simpl in Hnd. inversion Hnd; subst.
+          destruct Hpt as [->|Hpt], Hpt' as [->|Hpt']; auto.
+          - exfalso. apply H1. rewrite <- He. apply in_map; auto.
+          - exfalso. apply H1. rewrite He. apply in_map; auto. }
+        subst pt'. rewrite Eq in Hni. discriminate. }
+      rewrite HnO. rewrite Opc_proofs.lookup_sort by auto.
+      change (Opc.lower (ext (Opc.p_name pt))) with (Opc_proofs.pext pt).
+      destruct (Opc_proofs.cti_defaults_key E L (Opc.initdefs E) [] _ Hpt Eq) as (v & Hv).
+      rewrite <- HD in Hv. rewrite Hv.
+      rewrite HD in Hv. apply Opc_proofs.cti_defaults_val in Hv as [(pt' & Hpt' & Hi & He & Hct)|[_ Hno]].
+      * rewrite <- Hct. f_equal. apply Hcf; auto.
+      * exfalso. apply (Hno _ Hpt Eq). reflexivity.
+    + rewrite (Opc_proofs.lookup_NoDup_In (Opc.p_name pt) (Opc.p_ct pt)); auto.
+      rewrite HO. apply in_map_iff. exists pt. split; auto.
+      apply filter_In. split; auto. rewrite Eq. reflexivity.
+Qed.
+
 (* ------------------------------------------------------------------------------ *)
 (** * Closed, clause by clause *)
 
@@ -271,4 +319,175 @@ Proof.
         -- apply Hnn. apply Opc_proofs.rels_item_inj; auto.
 Qed.
 
+
+(** ** every part has exactly one resolvable content type, the one it was created or loaded with *)
+Lemma closed_types : c_types s (save_phys T s) = true.
+Proof.
+  unfold c_types. rewrite save_plist by exact Hw. rewrite save_members by exact Hw.
+  set (PL := map (fun p => Opc.mkPart (name_of (st_parts s) p)
+                    (match getp s p with Some x => pt_ct x | None => [] end) tt []) (iter_pids s)).
+  assert (Hn : map Opc.p_name PL = iter_names s).
+  { unfold PL, iter_names. rewrite map_map. reflexivity. }
+  destruct (cti_resolve (tenv T) PL) as (H1 & H2 & H3).
+  - apply (tk_env T HT).
+  - rewrite Hn. apply (iv_names T s HI).
+  - intros a b Ha Hb Hia Hib He. unfold PL in Ha, Hb.
+    apply in_map_iff in Ha as (p & <- & Hp). apply in_map_iff in Hb as (q & <- & Hq).
+    destruct (iter_good p Hp) as (x & Hx & _). destruct (iter_good q Hq) as (y & Hy & _).
+    unfold Opc_proofs.intab, Opc_proofs.pext in *. cbn [Opc.p_name Opc.p_ct Opc.deftbl tenv] in *.
+    rewrite Hx in *. rewrite Hy in *. rewrite (name_of_getp s p x Hx) in *. rewrite (name_of_getp s q y Hy) in *.
+    apply (iv_clash T s HI p q x y); unfold reach_part; auto.
+  - rewrite (NoDup_nodupb _ H1), (NoDup_nodupb _ H2). cbn [andb].
+    apply forallb_forall. intros m Hm. apply in_map_iff in Hm as (p & <- & Hp).
+    rewrite memf_pid, memf_name. destruct (iter_good p Hp) as (x & Hx & _). rewrite Hx.
+    specialize (H3 (Opc.mkPart (name_of (st_parts s) p) (pt_ct x) tt [])). cbn [Opc.p_name Opc.p_ct] in H3.
+    rewrite H3; [apply str_eqb_refl|].
+    unfold PL. apply in_map_iff. exists p. rewrite Hx. auto.
+Qed.
+
+Lemma part_name_nonnil t : Opc.part_name t -> t <> [].
+Proof. intros (P & _ & _ & -> & _). unfold render. discriminate. Qed.
+
+Lemma from_rel_ref_roundtrip src t : (src = Opc.root \/ Opc.part_name src) -> Opc.part_name t ->
+  from_rel_ref (baseURI src) (Opc.rel_ref t (baseURI src)) = Ok t.
+Proof.
+  intros Hs Ht. pose proof (Opc_proofs.resolve_rel_ref src t Hs Ht) as H. unfold Opc.resolve in H.
+  destruct (from_rel_ref (baseURI src) (Opc.rel_ref t (baseURI src))) as [t'|e]; [congruence|].
+  exfalso. apply (part_name_nonnil t Ht). auto.
+Qed.
+
+Lemma find_member_iter p : In p (iter_pids s) ->
+  find_member (save_phys T s) (name_of (st_parts s) p) = Some (memf s p).
+Proof.
+  intros Hp. unfold find_member. rewrite save_members by exact Hw.
+  pose proof (iv_names T s HI) as Hnd. unfold iter_names in Hnd.
+  revert Hp Hnd. generalize (iter_pids s). induction l as [|a l IH]; intros Hp Hnd; [destruct Hp|].
+  simpl. rewrite memf_name. simpl in Hnd. inversion Hnd; subst.
+  destruct (str_eqb_spec (name_of (st_parts s) a) (name_of (st_parts s) p)) as [E|E].
+  - destruct Hp as [->|Hp]; auto. exfalso. apply H1. rewrite E. apply in_map; auto.
+  - destruct Hp as [->|Hp]; [congruence|]. apply IH; auto.
+Qed.
+
+(** one written relationship of a source whose in-memory relationships are [rs] *)
+Lemma target_ok_out src base rs r :
+  (src = Opc.root \/ Opc.part_name src) -> base = baseURI src ->
+  NoDup (map rr_id rs) -> (forall r', In r' rs -> rr_ref r' = None) ->
+  (forall q, In q (int_targets rs) -> In q (iter_pids s)) ->
+  In r rs -> target_ok (save_phys T s) src rs (out_rel (st_parts s) base r) = true.
+Proof.
+  intros Hsrc -> Hnd Hnc Hcl Hr. unfold target_ok, out_rel.
+  destruct (rr_tgt r) as [q|u] eqn:Et; cbn [Opc.r_mode Opc.r_target Opc.r_id]; auto.
+  rewrite (Hnc r Hr).
+  assert (Hq : In q (iter_pids s)) by (apply Hcl; apply int_targets_In; eauto).
+  rewrite from_rel_ref_roundtrip; auto; [|apply iter_part_name; auto].
+  rewrite (find_member_iter q Hq). rewrite (find_rel_NoDup rs r Hnd Hr). rewrite Et.
+  rewrite memf_pid. apply Nat.eqb_refl.
+Qed.
+
+Lemma forallb_out_rels src base rs :
+  (src = Opc.root \/ Opc.part_name src) -> base = baseURI src ->
+  NoDup (map rr_id rs) -> (forall r', In r' rs -> rr_ref r' = None) ->
+  (forall q, In q (int_targets rs) -> In q (iter_pids s)) ->
+  forallb (target_ok (save_phys T s) src rs) (out_rels (st_parts s) base rs) = true.
+Proof.
+  intros H1 H2 H3 H4 H5. apply forallb_forall. intros o Ho. unfold out_rels in Ho.
+  apply in_map_iff in Ho as (r & <- & Hr).
+  apply (Permutation_in r (Opc_proofs.sort_by_perm _ rs)) in Hr.
+  apply target_ok_out; auto.
+Qed.
+
+Lemma iter_closed p x q : In p (iter_pids s) -> getp s p = Some x -> In q (int_targets (pt_rels x)) ->
+  In q (iter_pids s).
+Proof.
+  intros Hp Hx Hq. destruct (iter_pids_spec s Hw) as (Hiff & _). apply Hiff. apply Hiff in Hp.
+  eapply rp1; eauto.
+Qed.
+
+Lemma iter_roots q : In q (int_targets (st_prels s)) -> In q (iter_pids s).
+Proof. intros Hq. destruct (iter_pids_spec s Hw) as (Hiff & _). apply Hiff. constructor. exact Hq. Qed.
+
+(** ** every internal Target names a member, the one holding the part the relationship points to *)
+Lemma closed_targets : c_targets s (save_phys T s) = true.
+Proof.
+  unfold c_targets. apply andb_true_iff. split.
+  - unfold save_phys at 2. cbn [ph_prels]. apply forallb_out_rels; auto.
+    + apply (iv_pkeys T s HI).
+    + apply (iv_pnocache T s HI).
+    + apply iter_roots.
+  - rewrite save_members by exact Hw. apply forallb_forall. intros m Hm.
+    apply in_map_iff in Hm as (p & <- & Hp). rewrite memf_pid.
+    destruct (iter_good p Hp) as (x & Hx & G). rewrite Hx. unfold memf. rewrite Hx. cbn [pm_name pm_rels].
+    apply forallb_out_rels.
+    + right. apply (gp_name _ _ G).
+    + apply (gp_base _ _ G).
+    + apply (gp_keys _ _ G).
+    + apply (gp_nocache _ _ G).
+    + intros q Hq. eapply iter_closed; eauto.
+Qed.
+
+Lemma out_rels_ids base rs : Permutation (map Opc.r_id (out_rels (st_parts s) base rs)) (map rr_id rs).
+Proof.
+  unfold out_rels. rewrite map_map.
+  assert (E : forall l, map (fun r => Opc.r_id (out_rel (st_parts s) base r)) l = map rr_id l).
+  { intros l. apply map_ext. intros r. unfold out_rel. destruct (rr_tgt r); reflexivity. }
+  rewrite E. apply Permutation_map. apply Opc_proofs.sort_by_perm.
+Qed.
+
+(** ** every relationship id used in a part's XML is defined by its rels item *)
+Lemma closed_refs : c_refs s (save_phys T s) = true.
+Proof.
+  unfold c_refs. rewrite save_members by exact Hw. apply forallb_forall. intros m Hm.
+  apply in_map_iff in Hm as (p & <- & Hp). rewrite memf_pid.
+  destruct (iter_good p Hp) as (x & Hx & G). rewrite Hx. unfold memf. rewrite Hx. cbn [pm_rels].
+  apply forallb_forall. intros kr Hkr. apply mem_str_In.
+  eapply Permutation_in; [apply Permutation_sym, out_rels_ids|]. apply (gp_refs _ _ G). exact Hkr.
+Qed.
+
+Lemma Permutation_filter' {A} (f : A -> bool) l l' : Permutation l l' -> Permutation (filter f l) (filter f l').
+Proof.
+  induction 1; simpl; auto.
+  - destruct (f x); auto.
+  - destruct (f x), (f y); auto. apply perm_swap.
+  - eapply perm_trans; eauto.
+Qed.
+
+(** ** the officeDocument relationship leads to the presentation part *)
+Lemma closed_main : c_main s (save_phys T s) = true.
+Proof.
+  unfold c_main. destruct (iv_main T s HI) as (r & Hf & Ht).
+  unfold save_phys at 1. cbn [ph_prels]. unfold out_rels.
+  set (srt := Opc.sort_by (fun a b => Opc.rid_leb (rr_id a) (rr_id b)) (st_prels s)).
+  assert (Hfs : filter (fun r0 => str_eqb (rr_type r0) rt_office_document) srt = [r]).
+  { assert (HP : Permutation (filter (fun r0 => str_eqb (rr_type r0) rt_office_document) srt) [r]).
+    { rewrite <- Hf. apply Permutation_filter'. apply Opc_proofs.sort_by_perm. }
+    apply Permutation_sym, Permutation_length_1_inv in HP. exact HP. }
+  assert (Hfm : filter (fun o => str_eqb (Opc.r_type o) rt_office_document) (map (out_rel (st_parts s) s_slash) srt)
+                = [out_rel (st_parts s) s_slash r]).
+  { change [out_rel (st_parts s) s_slash r] with (map (out_rel (st_parts s) s_slash) [r]). rewrite <- Hfs.
+    clear. induction srt as [|a l IH]; simpl; auto.
+    assert (E : Opc.r_type (out_rel (st_parts s) s_slash a) = rr_type a) by (unfold out_rel; destruct (rr_tgt a); reflexivity).
+    rewrite E. destruct (str_eqb (rr_type a) rt_office_document); simpl; rewrite IH; reflexivity. }
+  rewrite Hfm.
+  assert (Hr : In r (st_prels s)).
+  { assert (In r [r]) by (simpl; auto). rewrite <- Hf in H. apply filter_In in H. tauto. }
+  unfold out_rel. rewrite Ht. rewrite (iv_pnocache T s HI r Hr). cbn [Opc.r_mode Opc.r_target].
+  assert (Hp : In (st_pres s) (iter_pids s)) by (apply iter_roots; apply int_targets_In; eauto).
+  change s_slash with (baseURI Opc.root).
+  rewrite from_rel_ref_roundtrip; auto; [|apply iter_part_name; auto].
+  rewrite (find_member_iter _ Hp). rewrite memf_pid. apply Nat.eqb_refl.
+Qed.
+
+Theorem save_closed_aux : Closed s (save_phys T s).
+Proof.
+  unfold Closed, closedb. rewrite closed_names, closed_types, closed_targets, closed_refs, closed_main. reflexivity.
+Qed.
+
 End SaveClosed.
+
+(** Inv gives Closed for the package save writes (the code as it is: no target cache) *)
+Theorem save_closed T s : tables_ok T -> Inv T s ->
+  snd (step false T s Save) = Saved (save_phys T s) /\ fst (step false T s Save) = s /\
+  Closed s (save_phys T s).
+Proof.
+  intros HT HI. split; [reflexivity|]. split; [reflexivity|]. apply save_closed_aux; auto.
+Qed.
